@@ -139,6 +139,7 @@ type FnCtx struct {
 	curBinOp     *ssa.BinOp
 	blockStack   []blockRef
 	freshBase    *Term
+	oldState     *State // pre-state for two-state postcondition predicates
 	curLatch     string
 	loopAssume   []loopAssumption
 }
